@@ -171,7 +171,7 @@ class ContinuousCarver(BaseCarver):
             _description_
         """
         # TODO: convert this to the vectorial version like BinaryCarver
-        return yval.groupby(groupby).sum()
+        return yval.groupby(groupby, sort=False).sum()
 
     def _association_measure(self, yval: Series, **kwargs) -> dict[str, float]:
         """Computes measures of association between feature and quantitative target.
